@@ -359,6 +359,25 @@ func driveIO(s *shardSet, rng *rand.Rand, thorough bool) ([]string, map[string]i
 								w.Sample(buf, ch*rng.Intn(l)+c)
 							}
 						}
+						// a window taken from a FRESH root; the samples arrive through the root afterwards; then an uneven
+						// striped write through the window (shorter channels must still be zero-filled)
+						if l > 1 {
+							w.Alloc(bty, ch, l+2, l+2)
+							fr := len(w.Views) - 1
+							w.Slice(fr, 1, 1+l)
+							fw := len(w.Views) - 1
+							w.Write(fr, KindOf(bty), w.stamps(ch*(l+2)))
+							ins := make([][]int64, ch)
+							nils := make([]bool, ch)
+							for c := range ins {
+								ins[c] = w.stamps(l - 1 - c%2)
+							}
+							if ch > 1 {
+								nils[ch-1] = true
+							}
+							w.WriteStriped(fw, sty, ins, nils)
+							w.Write(fw, sty, w.stamps(1))
+						}
 						// partly filled last frame (interleaved forms only)
 						if ch > 1 && window {
 							w.AppendSample(buf, w.NextStamp())
@@ -373,6 +392,31 @@ func driveIO(s *shardSet, rng *rand.Rand, thorough bool) ([]string, map[string]i
 						}
 					}
 				}
+			}
+		}
+	}
+	// values next to the limits of the 64-bit integer types, between types of the same signedness (representable
+	// in both): they must come back unchanged
+	for _, fam := range [][]string{{"int64", "int"}, {"uint64", "uint", "uintptr"}} {
+		for _, sty := range fam {
+			for _, dty := range fam {
+				w := s.Next()
+				w.Reset()
+				w.Alloc(dty, 2, 8, 8)
+				var bits []uint64
+				for i := 0; i < 16; i++ {
+					off := uint64(rng.Intn(1100))
+					switch {
+					case fam[0] == "int64" && i%2 == 0:
+						bits = append(bits, uint64(1<<63-1)-off) // near MaxInt64
+					case fam[0] == "int64":
+						bits = append(bits, uint64(1<<63)+off) // near MinInt64
+					default:
+						bits = append(bits, ^uint64(0)-off) // near MaxUint64
+					}
+				}
+				w.WriteRaw(0, sty, bits)
+				w.Read(0, dty, 16)
 			}
 		}
 	}
@@ -397,6 +441,7 @@ func driveChannel(s *shardSet, rng *rand.Rand, thorough bool) ([]string, map[str
 				w.Reset()
 				l := 1 + rng.Intn(maxL)
 				par := w.filledRoot(ty, ch, l+2)
+				w.ChanShape(par, rng.Intn(ch)) // a view of the larger buffer exists before the window is sliced
 				if window {
 					w.Slice(par, 1, 1+l)
 					par = len(w.Views) - 1
